@@ -11,7 +11,7 @@
    Complete_proofs.v shows these leave every used set as it was).
    "Eligible" is what ordered_matching returns (C07/C17 say which entries these are); "has room" is the
    negation of [no_room].  Holds for every state satisfying MapInv, i.e. every reachable state (C02). *)
-From NIPAM Require Import Sys Alloc_proofs Pool_proofs Inv_proofs Complete_proofs.
+From NIPAM Require Import Sys Alloc_proofs Pool_proofs Inv_proofs Complete_proofs Path_proofs Progress_proofs.
 Open Scope N_scope.
 
 Theorem C05_partial_refusal_is_reported :
@@ -74,3 +74,16 @@ Example C05_nonvacuous :
   last (map (fun x => (ob_res (snd (fst x)), ob_fx (snd (fst x)), ob_requeued (snd (fst x)))) (trace po0 lab0 init_world ops)) (0, [], false)
   = (2, [FxEvent 1 [110; 50]], true).
 Proof. vm_compute. reflexivity. Qed.
+
+(* the converse: a node for which some considered entry has room in every configured family is served when its
+   work item runs and the write succeeds (one PATCH, one block per configured family, result Ok) *)
+Theorem C05_servable_node_is_served :
+  forall po lab canp apisame held m node nr outs ps,
+  MapInv m -> KU m -> n_cidrs node = [] -> n_deleting node = false -> n_cidrs nr = [] ->
+  (forall cs, canp cs = true) ->
+  ordered_matching po lab m (n_labels node) true = Ok ps ->
+  (exists p c, In p ps /\ get_entry m p = Some c /\ ~ no_room m held c) ->
+  exists m' cs, cs <> [] /\
+    sync_node po lab canp apisame held m (Some node) (Some nr) (POk :: outs) = (m', Ok tt, [FxPatch (n_name node) cs POk]).
+Proof. exact servable_node_is_served. Qed.
+Print Assumptions C05_servable_node_is_served.
